@@ -163,6 +163,34 @@ def _same_sum(a, b):
     return sorted(a.replace('@', '*').split('+')) == sorted(b.replace('@', '*').split('+'))
 
 
+def rule_cov(repo):
+    from ..expr import triple_products, is_transpose_of
+    res = RuleResult('C16.COV', 'the propagated covariance is a sum of congruences X S X^T (the two outer factors of every triple matrix product in it '
+                     'are transposes of one another): symmetry and positive semi-definiteness of the noise terms carry over to the result', floor=3)
+    f = repo.func(IMU, CLS + '.propagate_cov')
+    rets = returns_of(f.node)
+    d = _dict_literal(f.node, rets[0]) if len(rets) == 1 else None
+    if d is None:
+        raise AnalysisError('C16.COV: propagate_cov no longer returns a dict literal')
+    cov = None
+    for k, v in zip(d.keys, d.values):
+        if isinstance(k, ast.Constant) and k.value == 'cov':
+            cov = inline_straight(f.node, upto=rets[0]).value(v)
+    if cov is None:
+        raise AnalysisError('C16.COV: no cov entry returned')
+    trips = triple_products(cov)
+    for L_, M_, R_, node in trips:
+        ok = is_transpose_of(L_, R_)
+        res.inst({'function': f.fq, 'product': '%s @ . @ %s' % (src(L_)[:30], src(R_)[:30]), 'congruence': ok}, dump(node)[:200])
+        if not ok:
+            res.add(Finding('C16.COV', f, 'the covariance contains the product `%s @ ... @ %s` whose outer factors are not transposes of one another: '
+                            'the result is in general neither symmetric nor positive semi-definite' % (src(L_)[:40], src(R_)[:40]),
+                            construct='non-congruence ' + src(L_)[:40] + ' | ' + src(R_)[:40]))
+    if len(trips) < 3:
+        raise AnalysisError('C16.COV: only %d triple products found in the covariance expression' % len(trips))
+    return res
+
+
 def rule_init(repo):
     res = RuleResult('C16.INIT', 'forward hands integrate() the rotation of the very initial state that predict() composes with (init_state[rot]), '
                      'so gravity is removed in the frame the result is expressed in', floor=1)
@@ -220,6 +248,6 @@ def rule_dep(repo):
 def rules(repo, tier):
     from ..effects import rule_pure
     t = [(IMU, CLS + '.forward'), (IMU, CLS + '.integrate'), (IMU, CLS + '.predict'), (IMU, CLS + '.propagate_cov'), (IMU, CLS + '._check')]
-    return [rule_carry(repo), rule_rank(repo), rule_dir_comp(repo), rule_dep(repo), rule_init(repo),
+    return [rule_carry(repo), rule_rank(repo), rule_dir_comp(repo), rule_dep(repo), rule_init(repo), rule_cov(repo),
             rule_pure(repo, 'C16.PURE', 'the integrator does not write in place into the measurement tensors it is given (dt, gyro, acc, rot, init_state): '
                       'feeding the same stream again, whole or in chunks, starts from the same data', t)]
